@@ -23,6 +23,13 @@ def setup_impl_path():
     sys.path.insert(0, REPO)
     sys.path.insert(0, STUBS)
     os.environ.setdefault('YABGP_VERIF', '1')
+    # yabgp formats a traceback for its debug log in many `except` blocks (traceback.format_exc()); Python 3.12 re-parses the
+    # source line of every frame for that, which costs milliseconds per exception and dominates runs in which many inputs
+    # raise.  The log text is not observed by anything here (logging is switched off): the formatting is made cheap.
+    import traceback
+    if not getattr(traceback, '_verif_cheap', False):
+        traceback.format_exc = lambda *a, **k: 'Traceback (formatting switched off by the harness)\n'
+        traceback._verif_cheap = True
 
 
 class Budget(BaseException):
